@@ -6,7 +6,8 @@ namespace Basyx.Codec
 /-- leaf-level side conditions of a row's SPEC domain on a non-None value -/
 def DomOk (r : Row) (v : Val) : Prop :=
   (r.noFalsy = true → truthyVal v = true) ∧
-  (r.enumVals ≠ [] → ∃ s, v = .tok s false ∧ s ∈ r.enumVals)
+  (r.enumVals ≠ [] → ∃ s, v = .tok s false ∧ s ∈ r.enumVals) ∧
+  (r.canBeEmpty = false → isEmptyTok v = false)
 
 mutual
 def ConfV (T : Table) : Kind → Val → Prop
@@ -104,7 +105,7 @@ theorem confV_list {T : Table} {k : Kind} {xs : List Val} (h : ConfV T k (.list 
   cases k <;> simp [ConfV] at h ⊢
 
 theorem wfRow_lossless {r : Row} (hw : wfRowB r = true) : losslessB r = true := by
-  simp only [wfRowB, Bool.and_eq_true] at hw; exact hw.1.1.1.1.2
+  simp only [wfRowB, Bool.and_eq_true] at hw; exact hw.1.1.1.1.1.2
 
 theorem lossless_sound {T : Table} {r : Row} {v : Val} (hw : wfRowB r = true) (hc : ConfRow T r v)
     (hg : guardPass r.guard v = false) : v = r.dflt := by
@@ -160,7 +161,7 @@ theorem lossless_sound {T : Table} {r : Row} {v : Val} (hw : wfRowB r = true) (h
     · rw [ho] at ho'; cases ho'
     · have hne' : r.enumVals ≠ [] := by
         intro e; simp [e] at hne
-      obtain ⟨s, hv, hs⟩ := hdom.2 hne'
+      obtain ⟨s, hv, hs⟩ := hdom.2.1 hne'
       subst hv
       cases hdf : r.dflt with
       | tok d fd =>
@@ -263,7 +264,7 @@ theorem assemble_decoded (T : Table) (se sd : Bool) : ∀ (rows : List Row) (fs 
     have hw := hwf r (List.mem_cons_self ..)
     have hw' := hw
     simp only [wfRowB, Bool.and_eq_true, Bool.or_eq_true, Bool.not_eq_true', beq_iff_eq] at hw'
-    obtain ⟨⟨⟨⟨⟨⟨hreads, hreq⟩, _⟩, hstrip⟩, hsg⟩, hsimple⟩, hsr⟩ := hw'
+    obtain ⟨⟨⟨⟨⟨⟨⟨hreads, hreq⟩, _⟩, hstrip⟩, hsg⟩, hsimple⟩, hsr⟩, _⟩ := hw'
     have hrP : r.member ∉ P.map Prod.fst := hP r (List.mem_cons_self ..)
     have hrest : r.member ∉ (decodedOf T se sd rows fs).map Prod.fst :=
       fun h => hnd'.1 (keys_decodedOf T se sd rows fs _ h)
@@ -344,6 +345,28 @@ theorem findRow_of_mem : ∀ (rows : List Row) (r : Row), (rows.map (·.member))
       simp only [findRow, List.find?, hne, decide_false] at ih ⊢
       exact ih
 
+theorem isEmptyTok_strip {T : Table} {s : Bool} (v : Val) : isEmptyTok (strip T s v) = isEmptyTok v := by
+  cases v <;> simp [strip, isEmptyTok]
+
+theorem emptyAction_keep {T : Table} {s : Bool} {r : Row} {v : Val} (hw : wfRowB r = true) (hc : ConfRow T r v)
+    (hne : v ≠ .none) : emptyAction r (strip T s v) = .keep := by
+  unfold emptyAction
+  rw [isEmptyTok_strip]
+  by_cases he : isEmptyTok v = true
+  · rcases hc with ⟨hv, _⟩ | ⟨_, _, hdom⟩
+    · exact absurd hv hne
+    · have hcb : r.canBeEmpty = true := by
+        cases h : r.canBeEmpty
+        · have := hdom.2.2 h; rw [this] at he; cases he
+        · rfl
+      have hx : r.emptyText = .exact := by
+        simp only [wfRowB, Bool.and_eq_true, Bool.or_eq_true, Bool.not_eq_true', beq_iff_eq] at hw
+        rcases hw.2 with h | h
+        · rw [hcb] at h; cases h
+        · exact h
+      simp [he, hx]
+  · simp [he]
+
 theorem emitted_ne_none {T : Table} {s : Bool} {r : Row} {v : Val} (hw : wfRowB r = true) (hc : ConfRow T r v)
     (he : emits s r v = true) : v ≠ .none ∧ ConfV T r.kind v := by
   rcases hc with ⟨hv, ho⟩ | ⟨hne, hcv, _⟩
@@ -413,8 +436,9 @@ theorem rt_members (T : Table) (se sd : Bool) (hWF : WF T) (R : List Row) : ∀ 
     · simp only [hem, if_true, Bool.true_and]
       simp only [decMembers, hfind r (List.mem_cons_self ..)]
       by_cases hrd : reads sd r = true
-      · obtain ⟨_, hcv⟩ := emitted_ne_none (hwf r (List.mem_cons_self ..)) hcr hem
-        simp only [hrd, if_true, rt_val T se sd hWF r.kind v hcv, ih, Except.map]
+      · obtain ⟨hne, hcv⟩ := emitted_ne_none (hwf r (List.mem_cons_self ..)) hcr hem
+        simp only [hrd, if_true, rt_val T se sd hWF r.kind v hcv, ih, Except.map,
+          emptyAction_keep (hwf r (List.mem_cons_self ..)) hcr hne]
       · simp only [hrd, Bool.false_eq_true, if_false, ih]
     · simp only [hem, Bool.false_eq_true, if_false, Bool.false_and, ih]
 end
